@@ -129,6 +129,81 @@ def trace_histories(R, n):
     return hs
 
 
+_WORD = __import__("re").compile(r"([A-Z])\s*([-+]?(?:\d+\.?\d*|\.\d+))")
+
+
+def analyzer_cross(R, histories_done):
+    """Cross-oracle named by the property: the library's own analyzer (`gscrib.printrun.gcoder.GCode`, what printcore runs every
+    line through) fed the emitted lines one by one must, after every call, sit where the builder reports - on the axes an
+    independent interpreter knows, in the mode the builder reports.  The analyzer has its own conventions for `G20` (it converts to
+    millimetres) and `G28` (it homes to 0), so a history is followed up to its first such line only."""
+    import logging
+    from gscrib.printrun import gcoder
+    logging.disable(logging.CRITICAL)
+    try:
+        for lines, recs, im in histories_done:
+            text = b"".join(im.rec.chunks).decode("utf-8")
+            out = [l for l in text.split("\n") if l.strip()]
+            prog = gcoder.GCode()
+            pos, rel, k = {"X": None, "Y": None, "Z": None}, False, 0
+            R.evaluations += 1
+            R.count("analyzer-cross")
+            for i, rec in enumerate(recs):
+                r = parse_record(rec)
+                n = 0 if r["stmts"] == "-" else len(r["stmts"].split(";"))
+                stop = False
+                for raw in out[k:k + n]:
+                    code = raw.split(";", 1)[0].strip().upper()
+                    ws = _WORD.findall(code)
+                    if ws and ws[0][0] == "G" and float(ws[0][1]) in (20.0, 28.0):
+                        stop = True
+                        break
+                    prog.append(raw, store=False)
+                    if not ws or ws[0][0] != "G":
+                        continue
+                    g, args = float(ws[0][1]), {a: float(v) for a, v in ws[1:] if a in pos}
+                    if g == 90:
+                        rel = False
+                    elif g == 91:
+                        rel = True
+                    elif g in (0, 1):
+                        for a, v in args.items():
+                            pos[a] = (None if pos[a] is None else pos[a] + v) if rel else v
+                    elif g == 92:
+                        pos.update(args)
+                    elif 38 <= g < 39:
+                        for a in args:
+                            pos[a] = None
+                if stop:
+                    R.count("analyzer-cross:cut-at-G20/G28")
+                    break
+                k += n
+                if r["out"] != "ok" and n == 0:
+                    continue
+                got = dict(zip("XYZ", prog.abs_pos))
+                rep = dict(zip("XYZ", r["pos"].split(",")))
+                for a in "XYZ":
+                    if pos[a] is None:
+                        continue
+                    try:
+                        want = float(Fraction(rep[a]))
+                    except (ValueError, ZeroDivisionError):
+                        continue                      # the machine oracle reports an unknown / non-numeric report
+                    if abs(got[a] - want) > 1e-4 * (1 + abs(want)) * (1 + i):
+                        R.fail({"history": bc.cfg_line(im) + lines[: i + 1]}, f"after `{lines[i]}` the library's analyzer is at "
+                               f"{a}={got[a]} but the builder reports {rep[a]}", tag="analyzer-position", step=i)
+                        stop = True
+                        break
+                if not stop and (r["rel"] == "1") != bool(prog.relative):
+                    R.fail({"history": bc.cfg_line(im) + lines[: i + 1]}, f"after `{lines[i]}` the library's analyzer is in relative="
+                           f"{prog.relative} mode, the builder reports rel={r['rel']}", tag="analyzer-mode", step=i)
+                    stop = True
+                if stop:
+                    break
+    finally:
+        logging.disable(logging.NOTSET)
+
+
 def run(R: core.Run):
     R.rule = ("random call histories (5-40 calls) over move/rapid/move_absolute/rapid_absolute/set_axis/auto_home/probe/"
               "set_distance_mode/mode context managers with any subset of x/y/z per call, on the exact dyadic grid; a second "
@@ -145,6 +220,8 @@ def run(R: core.Run):
     bc.correspond(R, histories(R, R.n(1200, 20000)), KEYS, True, "grid", exact_oracle)
     bc.correspond(R, histories(R, R.n(300, 4000), offgrid=True), KEYS, False, "offgrid", tol_oracle)
     bc.correspond(R, trace_histories(R, R.n(100, 3000)), KEYS, False, "tracer", tol_oracle)
+    # the cross-oracle the property names: the library's own analyzer fed the emitted lines (oracle only)
+    analyzer_cross(R, [bc.run_impl(h) for h in histories(R, R.n(250, 4000)) + histories(R, R.n(80, 1000), offgrid=True)])
     lowdp = [[f"cfg dp={R.rng.choice([0, 1, 2, 3])}"] + h for h in histories(R, R.n(150, 3000))]
     bc.correspond(R, lowdp, KEYS, False, "low-decimal-places", tol_oracle)
     # the formatter's precision changes mid-program (raised and lowered); coordinates are re-used across the change
